@@ -1,7 +1,7 @@
 (* Transient room data of the hub model: the replica theorem for EVERY history (C14, scenario C14H), async semantics. *)
 From Coq Require Import List NArith Bool Lia.
 From Verif Require Import model.Hub proofs.Hub_basics proofs.Hub_wf proofs.Hub_easy proofs.Hub_corollaries proofs.Hub_pending
-  proofs.Hub_transient_frame proofs.Hub_transient_bus proofs.Hub_transient_nr proofs.Hub_transient_nr2 proofs.Hub_transient_nr3
+  proofs.Hub_transient_frame proofs.Hub_transient_bus proofs.Hub_transient_nr proofs.Hub_transient_nr2 proofs.Hub_transient_nr4 proofs.Hub_transient_nr5
   proofs.Hub_isolation proofs.Hub_transient_hist proofs.Hub_transient_join.
 Import ListNotations.
 Open Scope N_scope.
@@ -39,8 +39,8 @@ Theorem ri_step_all h g o : WF h -> Inv h -> TI h -> BusNT h -> BusOK h -> RI h 
   RI (fst (step h o)) (gouts g (snd (step h o))).
 Proof.
   intros W Iv Ti Bn Bo I.
-  destruct o; try (apply ri_step; auto; try apply Ti; exact Logic.I).
-  - destruct h0; apply ri_step; auto; try apply Ti; try exact Logic.I. destruct i; exact Logic.I.
+  destruct o as [c a|c hl|c rn rs rep|c to tag|c to tag|c|c|secs|b sg rm q|c q|c to mk st md|tok ok|c kindn key val|pos|c hl late];
+    try (apply ri_step; auto; try apply Ti; exact Logic.I).
   - now apply ri_step_join.
   - (* OInternal *) apply (ri_quiet h); [exact I|]. cbn [step]. apply nr_with_session; [|apply nr_refl]. intros cn sid s _ _ Hs.
     destruct (is_internal (s_kind s)); [apply nr_do_internal; [exact W|exact Hs|apply nr_refl]|split; [apply nr_refl|apply qouts_nil]].
